@@ -249,3 +249,36 @@ add(Contract(
     ],
     raises={'Exception': ["unchanged(fragments)"]},
     modifies=FRAG_MOD, returns='ref:Fragments'))
+
+# ---------------------------------------------------------------- Ref (C08)
+from . import c_packet  # noqa: E402,F401  (StackWF, role contracts)
+
+add(Contract(
+    'field:Ref._unpack_referencing_a_packet',
+    params={'self': 'ref:Ref', 'pkt': 'ref:Packet', 'k': 'kw'},
+    requires=["k.has_raw and k.has_off and k.koff >= 0"],
+    ensures=[
+        # a nested packet: a fresh instance of the prototype's class, stored in the field's slot,
+        # parsed at the current position by its own unpack_impl, and parsing continues after it
+        "hasslot(pkt, self.field_name) and isinst(slot(pkt, self.field_name), 'Packet')",
+        "fresh_since(asref(slot(pkt, self.field_name), 'Packet'))",
+        "class_of(asref(slot(pkt, self.field_name), 'Packet')) == self.proto_class",
+        "result >= 0",
+    ],
+    raises={'PacketError': ["exc.was_error_found_in_unpacking_phase == True", "StackWF(exc)",
+                            "fresh_since(exc) and fresh_since(exc.fields_stack)"],
+            'OtherException*': []},     # only through finding K12a of the nested unpack_impl (C12)
+    modifies=['slot(pkt, self.field_name)'], allocates=True, returns='int'))
+
+add(Contract(
+    'field:Ref._pack_referencing_a_packet',
+    params={'self': 'ref:Ref', 'pkt': 'ref:Packet', 'fragments': 'ref:Fragments', 'k': 'kw'},
+    requires=["WF(fragments)", "fragments.current_offset >= 0", "hasslot(pkt, self.field_name)"],
+    ensures=["result == fragments", "WF(fragments)", "fragments.current_offset >= 0",
+             "isinst(old(slot(pkt, self.field_name)), 'Packet')"],
+    raises={'PacketError': ["exc.was_error_found_in_unpacking_phase == False", "StackWF(exc)", "WF(fragments)"],
+            'AttributeError': ["not isinst(old(slot(pkt, self.field_name)), 'Packet')", "unchanged(fragments)"],
+            'OtherException*': []},     # only through finding K12a of the nested pack_impl (C12)
+    # the nested packet's (scratch) slots and the buffer
+    modifies=["slot(asref(slot(pkt, self.field_name), 'Packet'), *)"] + FRAG_MOD, allocates=True,
+    returns='ref:Fragments'))
